@@ -62,6 +62,18 @@ def run(ctx, replay=None):
             D180 = DirectionalVariogram(cin, v, azimuth=case['azimuth'], tolerance=180, directional_model='compass', bin_func='even', **kw)
             ISO = Variogram(c, v, bin_func='even', **kw)
             same(ctx, case, 'tolerance 180 vs the isotropic variogram (derived edges)', triple(D180), triple(ISO), {'what': 'tolerance-180-vs-isotropic', 'duplicates': bool(has_dups)})
+            # both ends of the documented azimuth range
+            try:
+                Em = DirectionalVariogram(cin, v, azimuth=-180, tolerance=case['tolerance'], directional_model='compass', bin_func=edges, **kw)
+                Ep = DirectionalVariogram(cin, v, azimuth=180, tolerance=case['tolerance'], directional_model='compass', bin_func=edges, **kw)
+                E0 = DirectionalVariogram(cin, v, azimuth=0, tolerance=case['tolerance'], directional_model='compass', bin_func=edges, **kw)
+                s0_, n0_, d0_ = dc.geometry(case, azimuth=0, model='compass')
+                if not np.any(n0_ & ~d0_):
+                    same(ctx, dict(case, azimuth_used=-180), 'azimuth -180 vs azimuth 0', triple(Em), triple(E0), {'what': 'azimuth-180'})
+                    same(ctx, dict(case, azimuth_used=180), 'azimuth 180 vs azimuth 0', triple(Ep), triple(E0), {'what': 'azimuth-180'})
+                done += 1
+            except Exception as e:
+                ctx.problem('oracle', 'an azimuth at the end of the documented range [-180, 180] raises %s: %s' % (type(e).__name__, str(e)[:60]), case, None, {'what': 'azimuth-range-end-raises'})
             # (2) azimuth and azimuth +- 180
             az = case['azimuth']
             az2 = az + 180 if az <= 0 else az - 180
@@ -101,9 +113,18 @@ def run(ctx, replay=None):
                 k = 180 // w
                 azs = [(-90 + w / 2.0 + t * w) for t in range(k)]
                 masks, nearany = [], np.zeros(len(dall), bool)
+                reused = None
                 for a_ in azs:
                     S = DirectionalVariogram(cin, v, azimuth=a_, tolerance=w, directional_model='compass', bin_func=edges, **kw)
                     masks.append(np.asarray(S._direction_mask(), bool))
+                    # one instance turned through the sectors reports the same counts / semivariances as the fresh ones
+                    if w in (90, 45):
+                        if reused is None:
+                            reused = DirectionalVariogram(cin, v, azimuth=a_, tolerance=w, directional_model='compass', bin_func=edges, **kw)
+                            _ = reused.bin_count, reused.experimental
+                        else:
+                            reused.azimuth = a_
+                        same(ctx, dict(case, sector_width=w, sector_azimuth=a_), 'one instance turned to sector azimuth %r vs a fresh instance' % a_, triple(reused), triple(S), {'what': 'sector-instance-reused'})
                     s_, n_, d_ = dc.geometry(case, azimuth=a_, tolerance=w, model='compass')
                     nearany |= n_
                     deg = d_
